@@ -753,6 +753,31 @@ macro_rules! field_suite {
                     for v in al.iter().take(10) {
                         cands.push(v.clone());
                     }
+                    // comparison boundaries: the modulus with one 32-bit limb moved by +-1, lower limbs kept / zeroed / all ones
+                    for j in 0..(N8 / 4) {
+                        let step = le_pow2(32 * j, N8);
+                        let up = le_add(&m, &step);
+                        if up.len() == N8 || (up.len() == N8 + 1 && up[N8] == 0) {
+                            let mut u = up[..N8].to_vec();
+                            cands.push(u.clone());
+                            for b in u.iter_mut().take(4 * j) {
+                                *b = 0;
+                            }
+                            cands.push(u);
+                        }
+                        let dn = le_sub(&m, &step);
+                        cands.push(dn.clone());
+                        let mut d1 = dn.clone();
+                        for b in d1.iter_mut().take(4 * j) {
+                            *b = 0xff;
+                        }
+                        cands.push(d1);
+                        let mut d0 = dn;
+                        for b in d0.iter_mut().take(4 * j) {
+                            *b = 0;
+                        }
+                        cands.push(d0);
+                    }
                     for c in cands.iter() {
                         for pi in 0..PARSE.len() {
                             emit_parse(out, pi, c);
